@@ -135,9 +135,10 @@ def filtered(o, per, F, for_trans_sweep=False):
     return [[F[i][j] if keep_entry(o, ch, i, j, for_trans_sweep) else 0 for j in range(n)] for i in range(n)]
 
 
-def ref_masks(o, per, F):
-    """documented bin filters on the dense matrix -> (initial weights as Fractions, ambiguous?)
-    ambiguous = some bin sits within 1e-9 (relative, in log space) of the float MAD cutoff."""
+def ref_masks(o, per, F, tie_masked=None):
+    """documented bin filters on the dense matrix -> (initial weights as Fractions, ties)
+    ties = bins sitting within 1e-9 (log space) of the float MAD cutoff: their float decision is not
+    predictable; tie_masked (dict bin -> bool) overrides the decision for those bins."""
     n = len(F)
     Ff = filtered(o, per, F)
     if o["x0"] is None:
@@ -154,7 +155,7 @@ def ref_masks(o, per, F):
         for i in range(n):
             if marg[i] < o["count"]:
                 b[i] = Fraction(0)
-    ambiguous = False
+    ties = []
     if o["mad"] > 0:
         off = offsets_of(per)
         nm = [float("nan")] * n
@@ -177,13 +178,53 @@ def ref_masks(o, per, F):
                     b[i] = Fraction(0)
                     continue
                 if abs(math.log(x) - lc) < 1e-9:
-                    ambiguous = True
+                    ties.append(i)
+                    if tie_masked is not None:
+                        if tie_masked.get(i, False):
+                            b[i] = Fraction(0)
+                        continue
                 if math.log(x) < lc:
                     b[i] = Fraction(0)
     if o["black"]:
         for i in o["black"]:
             b[i] = Fraction(0)
-    return b, ambiguous
+    return b, ties
+
+
+def exact_mad_masked(o, per, F):
+    """the model's exact (4th-power) MAD decision per bin, mirrored with Fractions; used only to decide how a
+    float tie can be handed to the model (through its blacklist)"""
+    n = len(F)
+    Ff = filtered(o, per, F)
+    marg = [Fraction(sum(Ff[i])) for i in range(n)]
+    off = offsets_of(per)
+    nm = [None] * n
+
+    def mid2(xs):
+        s = sorted(xs)
+        return (s[(len(s) - 1) // 2], s[len(s) // 2]) if s else None
+    for lo, hi in zip(off[:-1], off[1:]):
+        pos = [marg[i] for i in range(lo, hi) if marg[i] > 0]
+        m = mid2(pos)
+        if m:
+            md = (m[0] + m[1]) / 2
+            for i in range(lo, hi):
+                nm[i] = marg[i] / md
+    pos = [x for x in nm if x is not None and x > 0]
+    m = mid2(pos)
+    out = [False] * n
+    if not m:
+        return out
+    med2 = m[0] * m[1]
+    R = [max(x * x / med2, med2 / (x * x)) for x in pos]
+    ra, rb = mid2(R)
+    c4 = med2 * med2 / (ra * rb) ** o["mad"]
+    for i in range(n):
+        x = nm[i]
+        if x is None:
+            continue
+        out[i] = True if x <= 0 else (x ** 4 < c4)
+    return out
 
 
 def groups_of(o, per):
